@@ -385,8 +385,8 @@ func shutdownScenario(name string, watchFail bool, q bool, bounds []int) explore
 	return explore.Scenario{
 		Name:     name,
 		MaxExecs: 600000,
-		Desc:   fmt.Sprintf("real runtime with an output-writing probe (queue flavour=%v) and a writer; %s at a scheduler-chosen instant: Run must return (with the watch error, if injected), no runtime goroutine may stay alive, shutdown hooks run, and no commit may happen after Run returned", q, map[bool]string{true: "an Errored event is injected into the runtime's aggregated watch", false: "the context is cancelled"}[watchFail]),
-		Bounds: bounds,
+		Desc:     fmt.Sprintf("real runtime with an output-writing probe (queue flavour=%v) and a writer; %s at a scheduler-chosen instant: Run must return (with the watch error, if injected), no runtime goroutine may stay alive, shutdown hooks run, and no commit may happen after Run returned", q, map[bool]string{true: "an Errored event is injected into the runtime's aggregated watch", false: "the context is cancelled"}[watchFail]),
+		Bounds:   bounds,
 		Body: func(x *explore.X) {
 			ctx, cancel := context.WithCancel(context.Background())
 			log := &hx.Log{}
@@ -412,7 +412,10 @@ func shutdownScenario(name string, watchFail bool, q bool, bounds []int) explore
 					Inputs: []controller.Input{{Namespace: hx.NS, Type: tInt, Kind: controller.InputQPrimary}}, Outputs: out,
 					ShutdownHook: func() { shutdownHook = true },
 				}}
-				qp.OnReconcile = func(ctx context.Context, r controller.QRuntime, _ resource.Pointer) error { writeOut(ctx, r); return nil }
+				qp.OnReconcile = func(ctx context.Context, r controller.QRuntime, _ resource.Pointer) error {
+					writeOut(ctx, r)
+					return nil
+				}
 				if err := rt.RegisterQController(qp); err != nil {
 					panic(err)
 				}
@@ -490,7 +493,7 @@ type taskState struct {
 	afterCtx int
 }
 
-func (s spec) ID() string { return s.id }
+func (s spec) ID() string        { return s.id }
 func (s spec) Equal(o spec) bool { return s.id == o.id && s.ver == o.ver }
 func (s spec) RunTask(ctx context.Context, _ *zap.Logger, _ struct{}) error {
 	key := fmt.Sprintf("%s/v%d", s.id, s.ver)
